@@ -463,6 +463,41 @@ mod inner {
         }
 
         #[cfg(bpaf_verif)]
+        /// tokenised items with their names and values as bytes, for verification hooks
+        pub(crate) fn verif_items(&self) -> String {
+            fn bytes(b: &[u8]) -> String {
+                format!("[{}]", b.iter().map(|x| x.to_string()).collect::<Vec<_>>().join(","))
+            }
+            fn os(o: &std::ffi::OsStr) -> String {
+                #[cfg(unix)]
+                {
+                    bytes(std::os::unix::ffi::OsStrExt::as_bytes(o))
+                }
+                #[cfg(not(unix))]
+                {
+                    bytes(o.to_string_lossy().as_bytes())
+                }
+            }
+            self.items
+                .iter()
+                .map(|a| match a {
+                    Arg::Short(c, adj, _) => format!(
+                        "{{\"k\":\"short\",\"n\":{},\"adj\":{}}}",
+                        bytes(c.to_string().as_bytes()),
+                        adj
+                    ),
+                    Arg::Long(l, adj, _) => {
+                        format!("{{\"k\":\"long\",\"n\":{},\"adj\":{}}}", bytes(l.as_bytes()), adj)
+                    }
+                    Arg::ArgWord(w) => format!("{{\"k\":\"argword\",\"v\":{}}}", os(w)),
+                    Arg::Word(w) => format!("{{\"k\":\"word\",\"v\":{}}}", os(w)),
+                    Arg::PosWord(w) => format!("{{\"k\":\"posword\",\"v\":{}}}", os(w)),
+                })
+                .collect::<Vec<_>>()
+                .join(",")
+        }
+
+        #[cfg(bpaf_verif)]
         /// kinds of the tokenised items for verification hooks
         pub(crate) fn verif_kinds(&self) -> String {
             self.items
